@@ -26,6 +26,7 @@ def corpus():
         "c20 k_both_delete cbe=fs sbe=fs devs=2 hist=s0|c0:a|c0:b|s0|s1|t:100|x0:a|t:200|x1:a|s0|s1|s0|s1|s0|s1",
         "c20 k_move cbe=fs sbe=fs devs=2 hist=s0|s1|f0:1|c0:a|m0:a:1|s0|s1|u1:a|s1|s0|s1|s0",
         "c20 k_archive_fav cbe=fs sbe=fs devs=2 hist=s0|c0:a|c0:c|s0|s1|a0:a|s0|s1|A1:a|x0:c|s0|s1|s0|o1|s1",
+        "c20 k_import_copy cbe=fs sbe=fs devs=2 hist=c0:a|c0:b|i0:0|u0:a|x0:b|o0|u0:a|s0|s1",
         "c20 k_archive_del cbe=fs sbe=fs devs=2 hist=s0|c0:a|c0:c|c0:b|a0:c|a0:a|s0|s1|x1:c|u1:a|s1|s0|o0|s0",
     ]
 
@@ -40,9 +41,15 @@ def gen_cases(rng, tier):
         body = len(h) - 2 * acct.ROUNDS
         for _ in range(rng.randrange(0, 4)):
             d = rng.randrange(2)
-            op = rng.choice(["a%d:%s", "a%d:%s", "A%d:%s"]) % (d, rng.choice("abc")) if rng.random() < 0.8 else "o%d" % d
+            r = rng.random()
+            op = rng.choice(["a%d:%s", "a%d:%s", "A%d:%s"]) % (d, rng.choice("abc")) if r < 0.7 else ("i%d:0" % d if r < 0.85 else "o%d" % d)
             h.insert(rng.randrange(2, max(3, body)), op)
-        out.append("c20 g%d cbe=%s sbe=fs devs=2 hist=%s" % (j, "db" if j % 4 == 1 else "fs", "|".join(h)))
+        be = "db" if j % 4 == 1 else "fs"
+        if be == "db":
+            # importing a copy of a folder on the database backend re-parents the original's rows (C02 finding
+            # C02-db-import-copy-reparents-secrets): the folder then differs from its log, outside C20's subject
+            h = [x for x in h if not x.startswith("i")]
+        out.append("c20 g%d cbe=%s sbe=fs devs=2 hist=%s" % (j, be, "|".join(h)))
     return out
 
 
